@@ -43,10 +43,21 @@ func VerifH_C08_StorageRaces() {
 	opA := vChoose("opA", 5)
 	opB := vChoose("opB", 5)
 	vAssume(opA <= opB)
-	vConcurrently(
-		func() { vSCOp(sc, opA, e1, first.c) },
-		func() { vSCOp(sc, opB, e2, first.c) },
-	)
+	if vTier() == 1 {
+		// thorough: three concurrent calls
+		opC := vChoose("opC", 5)
+		vAssume(opB <= opC)
+		vConcurrently(
+			func() { vSCOp(sc, opA, e1, first.c) },
+			func() { vSCOp(sc, opB, e2, first.c) },
+			func() { vSCOp(sc, opC, e1, first.c) },
+		)
+	} else {
+		vConcurrently(
+			func() { vSCOp(sc, opA, e1, first.c) },
+			func() { vSCOp(sc, opB, e2, first.c) },
+		)
+	}
 	vRaceCheck("storage")
 	vCover("put-vs-put", opA == 0 && opB == 0)
 	vCover("get-vs-finalize", opA == 2 && opB == 4)
